@@ -272,6 +272,40 @@ def rewrite_probe(ctx, root):
     b.cleanup_module()
 
 
+def object_instance_probe(ctx, root):
+    """parameter objects built from a definition (`{'class': …, 'kwargs': …}`) belong to ONE config: two configs — or two namespaces of one
+    chain — with the same definition get two objects, what one task does to its object's state never shows in the other's"""
+    from taskchain import Config
+    # (two pipeline files with the same object definition and different `x`: two different tasks — equal tasks are one object by design)
+    spec = {'classes': {'K0': {'name': 'a', 'group': '', 'params': [{'name': 'obj'}, {'name': 'x'}], 'inputs': [], 'kind': 'json', 'run_args': []}},
+            'files': {'p.json': {'tasks': ['K0'], 'x': 1, 'obj': {'class': '@mod.Box', 'kwargs': {'v': [1, 2]}}},
+                      'q.json': {'tasks': ['K0'], 'x': 2, 'obj': {'class': '@mod.Box', 'kwargs': {'v': [1, 2]}}},
+                      'm.json': {'uses': ['@cfg/p.json as n1', '@cfg/q.json as n2']}}, 'main': 'm.json', 'module': builder.gen.fresh_modname()}
+    b = pl.materialize(spec, root / 'objinst', modname=spec['module'])
+    f = (root / 'objinst').joinpath(*spec['module'].split('.')).with_suffix('.py')
+    f.write_text(f.read_text() + "\n\nclass Box(AutoParameterObject):\n    def __init__(self, v):\n        self.v = v\n        self.seen = []\n")
+    import json as _json
+    for fn in ('p.json', 'q.json'):
+        pf = b.path(fn)
+        d = _json.loads(pf.read_text()); d['obj']['class'] = spec['module'] + '.Box'; pf.write_text(_json.dumps(d))
+    pf, qf = b.path('p.json'), b.path('q.json')
+    b.module()
+    for k in range(ctx.n(3, 12)):
+        case = {'probe': 'instantiated parameter objects', 'variant': k}
+        ctx.case(case); ctx.count('aliasing-probe:parameter-objects')
+        if k % 2 == 0:
+            chain = Config(root / 'oid', str(b.path('m.json'))).chain()
+            o1, o2 = chain['n1::a'].params['obj'], chain['n2::a'].params['obj']
+        else:
+            o1 = Config(root / 'oid', str(pf)).chain()['a'].params['obj']
+            o2 = Config(root / 'oid', str(qf if k % 4 == 1 else pf)).chain()['a'].params['obj']
+        o1.seen.append('used'); o1.v.append(99)
+        if o1 is o2 or o2.seen or o2.v != [1, 2]:
+            ctx.fail('two configs (or two namespaces) share one parameter object: what one task did to it shows in the other', case,
+                     {'same_object': o1 is o2, 'other_sees': {'seen': o2.seen, 'v': o2.v}})
+    b.cleanup_module()
+
+
 def _plain(x):
     """strings (incl. substituted ones) by their text"""
     if isinstance(x, dict):
@@ -298,6 +332,7 @@ def run(ctx):
     aliasing_probe(ctx, root)
     default_alias_probe(ctx, root)
     rewrite_probe(ctx, root)
+    object_instance_probe(ctx, root)
 
 
 def search(ctx, divergences):
